@@ -48,7 +48,7 @@ def run(ctx, replay=None):
                             if form == 'arrays':
                                 z = ok.transform(*[T[:, d] for d in range(dim)])
                             else:
-                                ms = MetricSpace(T.copy(), s['metric'], ok.range if sparse else None)
+                                ms = kc.target_space(s, T, ok.range if sparse else None)
                                 z = ok.transform(ms)
                             ties = False
                             same('result depends on solver=%s / sparse=%s / targets as %s' % (solver, sparse, form), np.asarray(z, float), np.asarray(ok.sigma, float),
